@@ -291,6 +291,8 @@ def run_c02(ctx):
     for s in rnd2:
         s['sid'] = 'e' + s['sid']
     rnd += rnd2
+    if len(rnd) > 8:
+        rnd[8]['run'] = {'api': 'longgap'}  # plus one very long silence of a PID (half a million packets of another PID in between)
     for s in rnd[:8]:
         s['run'] = {'api': 'packed'}        # plus two sections packed the ISO way (the tail of one behind the pointer_field of the next)
     return pipeline(
